@@ -203,7 +203,12 @@ class ListTransformer(converter.Base):
       for original_call_node, pop_var_name in pop_uses:
         replacements.extend(
             self._generate_pop_operation(original_call_node, pop_var_name))
-      replacements.append(node)
+      # The statement itself may have been expanded to several statements
+      # (e.g. an append call).
+      if isinstance(node, (list, tuple)):
+        replacements.extend(node)
+      else:
+        replacements.append(node)
       node = replacements
     self.state[_Statement].exit()
     return node, None
